@@ -4,6 +4,7 @@ Proofs for C13: the model's results do not depend on the configuration (`strict`
 -/
 import SqliteDissect.Model.Wal
 import SqliteDissect.Proofs.Layout
+import SqliteDissect.Proofs.TreeWalk
 
 namespace SqliteDissect.Proofs.Config
 open SqliteDissect SqliteDissect.Model
@@ -177,6 +178,20 @@ theorem tree_strict_irrelevant (v : VersionIf) (fuel number : Nat) (cls : PageTy
   cases v with
   | mk ps vn s gd pv po => exact tree_aux ps vn gd pv po fuel number cls t h
 
+/-- the same for the walk that refuses a page reached twice: through the reference parse -/
+theorem treeW_aux (ps vn : Nat) (gd : Nat → Nat → Option Nat → Py Buf) (pv po : Nat → Py Nat)
+    (fuel number : Nat) (cls : PageType) (seen : List Nat) (t : List BPage)
+    (h : parseBTreeW ⟨ps, vn, true, gd, pv, po⟩ fuel number cls seen = .ok t) :
+    parseBTreeW ⟨ps, vn, false, gd, pv, po⟩ fuel number cls seen = .ok t := by
+  obtain ⟨hp, hnd, hdis⟩ := TreeWalk.parseBTreeW_ok _ _ _ _ _ _ h
+  exact TreeWalk.parseBTreeW_of_pure _ _ _ _ _ _ (tree_aux ps vn gd pv po _ _ _ _ hp) hnd hdis
+
+theorem treeW_strict_irrelevant (v : VersionIf) (fuel number : Nat) (cls : PageType) (seen : List Nat)
+    (t : List BPage) (h : parseBTreeW { v with strict := true } fuel number cls seen = .ok t) :
+    parseBTreeW { v with strict := false } fuel number cls seen = .ok t := by
+  cases v with
+  | mk ps vn s gd pv po => exact treeW_aux ps vn gd pv po fuel number cls seen t h
+
 theorem getBTreeRoot_aux (ps vn : Nat) (gd : Nat → Nat → Option Nat → Py Buf) (pv po : Nat → Py Nat)
     (frames number : Nat) (t : List BPage)
     (h : getBTreeRoot ⟨ps, vn, true, gd, pv, po⟩ frames number = .ok t) :
@@ -190,16 +205,16 @@ theorem getBTreeRoot_aux (ps vn : Nat) (gd : Nat → Nat → Option Nat → Py B
   rename_i hsz
   rw [if_neg hsz]
   split at h
-  · rename_i hb; rw [if_pos hb]; exact tree_aux ps vn gd pv po _ _ _ _ h
+  · rename_i hb; rw [if_pos hb]; exact treeW_aux ps vn gd pv po _ _ _ _ _ h
   rename_i hb; rw [if_neg hb]
   split at h
-  · rename_i hb; rw [if_pos hb]; exact tree_aux ps vn gd pv po _ _ _ _ h
+  · rename_i hb; rw [if_pos hb]; exact treeW_aux ps vn gd pv po _ _ _ _ _ h
   rename_i hb; rw [if_neg hb]
   split at h
-  · rename_i hb; rw [if_pos hb]; exact tree_aux ps vn gd pv po _ _ _ _ h
+  · rename_i hb; rw [if_pos hb]; exact treeW_aux ps vn gd pv po _ _ _ _ _ h
   rename_i hb; rw [if_neg hb]
   split at h
-  · rename_i hb; rw [if_pos hb]; exact tree_aux ps vn gd pv po _ _ _ _ h
+  · rename_i hb; rw [if_pos hb]; exact treeW_aux ps vn gd pv po _ _ _ _ _ h
   · cases h
 
 /-! ### the database constructor -/
